@@ -811,11 +811,10 @@ func (f *STFS) Rename(oldname, newname string) error {
 			return os.ErrExist
 		}
 
+		// Replace the target, then fall through to the actual move
 		if err := f.removeWithoutLocking(newname); err != nil {
 			return err
 		}
-
-		return err
 	}
 
 	return f.writeOps.Move(oldname, newname)
